@@ -549,7 +549,12 @@ Step ==
                               IF s2.cfg.generator \in {"best", "nbc"} /\ s2.rounds > 0 /\
                                  \E d \in DOMAIN q.st.D0 : AsleepAtStart(q.st, d) /\ d \notin mem.offered
                               THEN "C18_IdleNotOffered" ELSE "C18_IdleAllAsleep"
-                         ELSE IF AllAwakeRanWithoutChange(q.st) THEN "C18_IdleConverged"
+                         \* known finding KF-C18-converged: every awake deme ran and every one of their populations has
+                         \* collapsed to float precision (spread of at most 1024 units in the last place)
+                         ELSE IF AllAwakeRanWithoutChange(q.st) /\
+                                 \A i \in DOMAIN sn.demes : (sn.demes[i].id \in DOMAIN q.st.D0 /\ AwakeAtStart(q.st, sn.demes[i].id))
+                                                               => sn.demes[i].spr <= 1024
+                              THEN "C18_IdleConverged"
                          ELSE "C18_NoIdleMetaepoch"} ELSE {}
            endc == IF e.e = "end" /\ ~Manual(s2) /\ ~C05_CounterEqualsPerformed([s2 EXCEPT !.pc = "done"])
                    THEN {"C05_CounterEqualsPerformed"} ELSE {}
